@@ -5,7 +5,7 @@
 package runs
 
 // representation facts of a run created by NewRun/ReadRun in a session built by the engine
-//@ pred RunRep(r *run) bool := r != nil && !isnil(r.session) && !isnil(r.flow) && SessRep(r.session.(*engine.session)) && r.flow.(*definition.flow) != nil && !isnil(r.flow.(*definition.flow).localization)
+//@ pred RunRep(r *run) bool := r != nil && !isnil(r.session) && !isnil(r.flow) && SessRep(r.session.(*engine.session)) && r.flow.(*definition.flow) != nil && r.results != nil && !isnil(r.flow.(*definition.flow).localization)
 
 // ---- C18: language preference list and fallback chain
 
@@ -52,11 +52,13 @@ package runs
 
 // C05: the saved value is cut to the configured maximum
 //@ func (r *run) SaveResult
-//@   havocs addResult, Save, Now
-//@   requires r != nil && result != nil && !isnil(r.session) && SessRep(r.session.(*engine.session))
+//@   havocs addResult, Now
+//@   requires r != nil && result != nil && r.results != nil && !isnil(r.session) && SessRep(r.session.(*engine.session))
 //@   assigns computed
 //@   ensures [truncated] runes(result.Value) <= r.session.(*engine.session).engine.(*engine.engine).options.MaxResultChars
 //@   ensures [kept_if_short] old(runes(result.Value)) <= r.session.(*engine.session).engine.(*engine.engine).options.MaxResultChars ==> result.Value == old(result.Value)
+// C07: the run's results hold this very result object afterwards (so later reads see the value, category, input and node of the latest routing)
+//@   ensures [stored] r.results[utils.Snakify(result.Name)] == result
 //@   records resultSaved(r, old(result.Name), old(result.Value), old(result.Category), old(result.Input), old(result.NodeUUID))
 //@   records resultLocalized(r, old(result.Name), old(result.CategoryLocalized))
 
